@@ -113,4 +113,4 @@ clean:
 
 # ---- setup: everything a fresh restore needs ---------------------------------
 .PHONY: setup
-setup: cont $(B)/small/bin/eion $(B)/plain/bin/etl $(B)/plain/bin/efs $(B)/plain/bin/erng $(B)/small/bin/erhd
+setup: cont $(B)/small/bin/eion $(B)/plain/bin/etl $(B)/plain/bin/efs $(B)/plain/bin/erng $(B)/small/bin/erhd $(B)/asan/bin/eion $(B)/asan/bin/erhd
